@@ -1032,6 +1032,13 @@ func rawHeaders(h map[string]string, on bool) *envoy_core.HeaderMap {
 	sort.Strings(keys)
 	hm := &envoy_core.HeaderMap{}
 	for _, k := range keys {
+		if strings.EqualFold(k, "Cookie") {
+			// HTTP/2 clients may send one cookie header field per cookie (RFC 9113 8.2.3): repeated entries of the map
+			for _, c := range strings.Split(h[k], "; ") {
+				hm.Headers = append(hm.Headers, &envoy_core.HeaderValue{Key: "cookie", RawValue: []byte(c)})
+			}
+			continue
+		}
 		hm.Headers = append(hm.Headers, &envoy_core.HeaderValue{Key: strings.ToLower(k), RawValue: []byte(h[k])})
 	}
 	return hm
